@@ -623,7 +623,7 @@ class Engine(object):
             raise PyRaise(ExcVal(TypeError, ("object is not iterable",)))
         if it is None or isinstance(it, (int, float)):
             raise PyRaise(ExcVal(TypeError, ("object is not iterable",)))
-        if isinstance(it, (set, frozenset)):
+        if isinstance(it, (set, frozenset)) or type(it).__name__ == "ListSet":
             return self.models.set_order(it)
         if isinstance(it, str):
             return list(it)
@@ -866,7 +866,12 @@ class Engine(object):
                 if name in ci.methods:
                     return BoundMethod(o.obj, FuncRef(k[0], ci.methods[name], owner=k), name)
             if name == "__init__":
-                return lambda *a, **k: None
+                tgt = o.obj
+
+                def ext_init(*a, **k):
+                    tgt.fields["__ext_init__"] = (a, k)      # arguments handed to the external (stdlib) base class
+                    return None
+                return ext_init
             if name == "__repr__":
                 return lambda *a, **k: "<object>"
             raise PyRaise(ExcVal(AttributeError, (name,)))
